@@ -36,6 +36,7 @@
 #include <sys/wait.h>
 #include <thread>
 #include <unistd.h>
+#include <map>
 #include <vector>
 
 // Friend of Communicator / WorkerThread / EngineMainThread (declared under TEXEL_VERIF)
@@ -375,7 +376,9 @@ public:
     }
     void searchPoll(int threadNo, long long totalNodes, int nbtc) override {
         std::unique_lock<std::mutex> L(m);
+        struct Dbg { Sched* s; int t; long long n; int b; long long before; ~Dbg() { if (getenv("COOP_POLL_DEBUG")) fprintf(stderr, "POLL step=%ld thread=%d nodes=%lld nbtc=%d main=%d now=%lld->%lldus\n", s->step, t, n, b, s->th.empty() ? -1 : (int)s->th[0]->st, before / 1000, s->now / 1000); } } dbg{this, threadNo, totalNodes, nbtc, now};
         if (threadNo == 0) {
+            mainWaiting = false;
             long long d = totalNodes - lastNodes0;
             if (d < 0) d = totalNodes; // a new search restarted its counter
             lastNodes0 = totalNodes;
@@ -388,9 +391,18 @@ public:
             // the main search thread sleeps or waits for an event while helpers keep searching: their nodes are the passage
             // of time.  (Not while it merely waits for a contended mutex: how long the holder stays descheduled is this
             // scheduler's choice, not engine behaviour.)
-            now += (long long)nbtc * spec.nsPerNode;
-        }
+            // Helpers run in parallel with each other: each one's nodes since the main thread stopped running measure the
+            // same stretch of time, so the clock follows the helper that has searched most since then (not the sum).
+            if (!mainWaiting) { mainWaiting = true; waitStart = now; helperBase.clear(); }
+            auto it = helperBase.find(threadNo);
+            if (it == helperBase.end()) it = helperBase.emplace(threadNo, totalNodes - nbtc).first;  // its last interval counts as spent waiting
+            if (totalNodes < it->second) it->second = totalNodes - nbtc;                           // a new search restarted its counter
+            now = std::max(now, waitStart + (totalNodes - it->second) * spec.nsPerNode);
+        } else mainWaiting = false;
     }
+    bool mainWaiting = false;
+    long long waitStart = 0;
+    std::map<int, long long> helperBase;
     long long lastNodes0 = 0;
     void timeLimit(int minT, int maxT, int early) override {
         std::unique_lock<std::mutex> L(m);
